@@ -11,7 +11,7 @@ use atomic::Atomic;
 use static_assertions::const_assert;
 
 use crate::ebr_impl::{global_epoch, Guard, Tagged};
-use crate::utils::{strong_count_of, Raw, RcInner};
+use crate::utils::{strong_count_of, weak_count_of, Raw, RcInner};
 use crate::{Weak, WeakSnapshot};
 
 /// A common trait for reference-counted object types.
@@ -514,7 +514,7 @@ impl<T: RcObject> Rc<T> {
     #[inline]
     pub fn weak_many<const N: usize>(&self) -> [Weak<T>; N] {
         if let Some(cnt) = unsafe { self.ptr.as_raw().as_ref() } {
-            cnt.increment_weak(N as u32);
+            cnt.increment_weak(weak_count_of(N));
         }
         array::from_fn(|_| Weak::from_raw(self.ptr))
     }
